@@ -171,8 +171,7 @@ Record drev := mkD {
   d_ts4 : Z;
   d_tz : Z;
   d_msg : bytes;
-  d_inv : inv;
-  d_erev : list (N * nat)                (* file id -> mark of the revision that last changed the entry (ie.revision) *)
+  d_inv : inv
 }.
 
 (* CommitHandler._format_name_email *)
@@ -209,10 +208,6 @@ Record ist := mkI {
   i_tags : list (bytes * nat)            (* self.tags: name -> mark *)
 }.
 
-Definition entry_eqb (a b : entry) : bool :=
-  (e_id a =? e_id b) && (e_par a =? e_par b) && bytes_eqb (e_name a) (e_name b) &&
-  kind_eqb (e_kind a) (e_kind b) && bytes_eqb (e_data a) (e_data b) && Bool.eqb (e_exec a) (e_exec b).
-
 (* reset_handler (a `reset` without `from` clears the ref's last commit), then commit_handler +
    CommitHandler.process *)
 Definition import_one (s : ist) (x : xcommit) : res ist :=
@@ -226,28 +221,9 @@ Definition import_one (s : ist) (x : xcommit) : res ist :=
            | p :: _ => match aget Nat.eqb (i_revs s) p with Some d => d_inv d | None => [] end
            | [] => []
            end in
-  let berev := match parents with
-               | p :: _ => match aget Nat.eqb (i_revs s) p with Some d => d_erev d | None => [] end
-               | [] => []
-               end in
-  (* the entry's path must exist in the tree of the revision that last changed it *)
-  let stale (i : N) (p : path) : bool :=
-    match aget N.eqb berev i with
-    | Some m => match aget Nat.eqb (i_revs s) m with
-                | Some dm => match path2id (d_inv dm) p with Some _ => false | None => true end
-                | None => false
-                end
-    | None => false
-    end in
-  do r <- import_commit stale b (i_fresh s) (fst (x_cmds x) ++ snd (x_cmds x));
-  (* the commit builder keeps ie.revision of an entry that is identical to the basis entry *)
-  let erev := map (fun e => (e_id e,
-                     match find_entry b (e_id e), aget N.eqb berev (e_id e) with
-                     | Some o, Some m => if entry_eqb o e then m else x_mark x
-                     | _, _ => x_mark x
-                     end)) (fst r) in
+  do r <- import_commit b (i_fresh s) (fst (x_cmds x) ++ snd (x_cmds x));
   let d := mkD parents (format_name_email (x_committer x)) (author_prop x)
-               (4 * x_secs x)%Z (x_tz x) (x_msg x) (fst r) erev in
+               (4 * x_secs x)%Z (x_tz x) (x_msg x) (fst r) in
   Ok (mkI (i_revs s ++ [(x_mark x, d)]) t (snd r) (i_tags s)).
 
 (* reset_handler for the tag resets (a ref outside refs/tags/ would be tracked as a branch head; the
